@@ -27,21 +27,31 @@ LEVEL = 'proof'
 PROVE_TIMEOUT = 900
 TRUSTED = [
     'translate/c19.py + translate/c18.py:rexpr: Python ast -> Gallina (Q and R) for the sigma2/fact/update expressions, guards, '
-    'iteration count, correction vector, 10**(-c/2.5), 1/factor**2, res/(sumfilt + (sumfilt <= 0)); float literals read as their decimal text',
-    'hand-written glue C19/Model.v (scalar/array/Quantity dispatch collapsed to "convert to Angstrom, apply, convert back"; '
-    'iteration as iterQ/iterR; masked pixels filled by an interpolation of the unmasked ones) -- tied by correspondence',
+    'iteration count, correction vector, 10**(-c/2.5), 1/factor**2, res/(sumfilt + (sumfilt <= 0)), np.absolute(logdiff), logdiff * response; '
+    'the mask tests and early exits of djs_maskinterp1 and the shape of its interpolation statement, the per-row loop of djs_maskinterp, the '
+    'djs_maskinterp(flux, mask, axis=0) call; the filter files, band string, columns and np.interp abscissa of filter_thru and the five response '
+    'tables read from pydl/pydlutils/data/filters; float literals and table entries read as their decimal text',
+    'hand-written glue C19/Model.v (scalar/array/Quantity dispatch collapsed to "convert to Angstrom, apply, convert back"; iteration as '
+    'iterQ/iterR; mi_row / good_samples / fill_from as the transliteration of djs_maskinterp1 for xval None, const False; np_interp as the model of '
+    'np.interp) -- tied by correspondence (CMask rows, per-pixel response comparison)',
     'Coq Reals axioms (ClassicalDedekindReals.sig_forall_dec, sig_not_dec, functional_extensionality_dep, Classical_Prop.classic) and, '
-    'through coq-interval/Bignums in C19_mutual_inverse, the primitive 63-bit integer operations with their stdlib axioms (Uint63)',
-    'astropy units (Quantity.to, multiplication by a unit), numpy summation and np.interp are exercised, not modelled',
-    'the weights of filter_thru are observed by replacing the module-level name `np` of pydl.pydlspec2d.spec2d by a recording proxy',
+    'through coq-interval/Bignums in C19_mutual_inverse / C19_roundtrip_all_wavelengths / C19_second_direction_gap, the primitive 63-bit integer '
+    'operations with their stdlib axioms (Uint63)',
+    'astropy units (Quantity.to, multiplication by a unit), astropy.io.ascii, numpy summation are exercised, not modelled',
+    'the wavelengths handed to np.interp, the fitted pixel widths and the interpolated rows of filter_thru are observed by replacing the module-level '
+    'names `np`, `traceset2xy`, `djs_maskinterp` of pydl.pydlspec2d.spec2d by recording proxies',
 ]
 ASSUMPTIONS = [
     'wavelengths within 1e-6 relative of the 2000 A threshold are not generated, except exactly 2000.0 in Angstrom (astropy converts 200 nm to 1999.9999999999998 A, as the repository tests note)',
     'float32 wavelength arrays are compared with the float64 result of the same call at 2e-6 relative (not sent to Coq); float32 flux '
     'images of filter_thru are checked at 5e-6 (float64: 1e-9)',
-    'filter_thru: every trace keeps at least two unmasked pixels (djs_maskinterp returns the input row unchanged when every pixel is '
-    'masked, so nothing can be independent of masked values there); wavelength solutions are monotone in pixel, increasing or decreasing',
-    'round-trip theorem and checks cover 2000 A .. 30 um (3e5 A); below 2000 A both functions are the identity',
+    'filter_thru: a trace without ANY good pixel is excluded from the mask-independence clause (djs_maskinterp1 returns such a row unchanged -- '
+    'C19_maskinterp_all_bad_is_input, C19_maskinterp_indep_all_bad_refuted -- so the band is the weighted mean of the masked values); traces with one '
+    'good pixel (constant) and two good pixels are included.  Mask values nan / inf get the black-box checks only (no rational for the Coq case)',
+    'the d(log lambda) trace-set fit of filter_thru (xy2traceset / traceset2xy, property C13) is outside the model: the fitted widths are recorded '
+    'and only checked against the generated wavelength solution at 1e-6; wavelength solutions are monotone in pixel, increasing or decreasing',
+    'pixel-order reversal is compared at 1e-7 relative (1e-5 with toair: the fit attributes each difference to its left pixel)',
+    'round-trip theorem and checks cover all wavelengths up to 30 um (3e5 A); below 2000 A both functions are the identity',
 ]
 
 UNIT_K = {'AA': 1, 'nm': 10, 'um': 10000}
@@ -62,13 +72,21 @@ def translate(ctx):
         info['note'] = ('source shape not recognised; the committed Generated/AstroConsts.v is restored (else the previous file is kept) '
                         'and the correspondence run alone ties model to code')
         import subprocess
+        need = ('maskinterp_good', 'maskinterp_dispatch', 'filter_curves', 'filter_norm', 'airtovac_iterations')
+        done = False
         try:
             p = subprocess.run(['git', '-C', C.VERIF, 'show', 'HEAD:coq/Generated/AstroConsts.v'], stdout=subprocess.PIPE,
                                stderr=subprocess.DEVNULL, text=True, timeout=30)
-            if p.returncode == 0 and p.stdout.strip():
+            if p.returncode == 0 and all(n in p.stdout for n in need):
                 info['restored_committed'] = C.write_if_changed(path, p.stdout)
+                done = True
         except Exception:  # noqa: BLE001
             pass
+        if not done and os.path.realpath(C.REPO) != os.path.realpath('/repo'):
+            # the committed file predates the current model: regenerate from the reference checkout instead
+            ref, rinfo = T.generate('/repo')
+            if ref is not None:
+                info['restored_from_reference_checkout'] = C.write_if_changed(path, ref)
     return {'AstroConsts': info}
 
 
@@ -415,9 +433,115 @@ def edge_grid(rng, band, side, nx, dl=1.0e-4):
     return None
 
 
-def gen_filter_job(ctx, small, direction=None, wave=None, cover=None, dtype=None, edge=None, ends=False):
+MASK_DTYPES = ['bool', 'i1', 'i2', 'i4', 'i8', 'u1', 'u2', 'u4', 'u8', '>i4', '>i2', '>i8', '>u2', 'f4', 'f8']
+ROW_KINDS = ['normal', 'normal', 'normal', 'all-good', 'all-bad', 'single-good', 'two-good']
+
+
+def mask_bits(dtype):
+    d = dtype.lstrip('<>')
+    return {'1': 8, '2': 16, '4': 32, '8': 64}[d[1]]
+
+
+def mask_styles(dtype):
+    if dtype == 'bool':
+        return ['01']
+    d = dtype.lstrip('<>')
+    if d[0] == 'i':
+        return ['01', 'bits', 'neg1', 'signbit', 'negative', 'mixed']
+    if d[0] == 'u':
+        return ['01', 'bits', 'topbit', 'allones']
+    return ['float', 'float', 'float-special']
+
+
+def bad_value(rng, dtype, style):
+    """one non-zero mask value of the storage type (a Python int, a float, or 'nan')"""
+    if dtype == 'bool' or style == '01':
+        return 1.0 if 'f' in dtype else 1
+    if 'f' in dtype:
+        pool = [1.0, -1.0, 0.5, -0.5, 3.0, f32(1.0e-30), -f32(1.0e-30), 1024.0]
+        if style == 'float-special':
+            pool = pool + ['nan', 'inf', '-inf']
+        return rng.choice(pool)
+    n = mask_bits(dtype)
+    signed = dtype.lstrip('<>')[0] == 'i'
+    if style == 'neg1':
+        return -1
+    if style == 'signbit':
+        return -(1 << (n - 1))
+    if style == 'negative':
+        return rng.choice([-1, -2, -(1 << (n - 1)), -(1 << (n - 1)) + 1, -rng.randint(1, (1 << (n - 1)) - 1)])
+    if style == 'topbit':
+        return 1 << (n - 1)
+    if style == 'allones':
+        return (1 << n) - 1
+    if style == 'bits':
+        v = 1 << rng.randrange(n)
+        if rng.random() < 0.3:
+            v |= 1 << rng.randrange(n)
+        if signed and v >= (1 << (n - 1)):
+            v -= 1 << n          # the top bit of a signed type: a negative value
+        return v
+    # mixed
+    return rng.choice([1, -1, 1 << (n - 2), -(1 << (n - 1)), rng.randint(1, (1 << (n - 1)) - 1), -rng.randint(1, (1 << (n - 1)) - 1)])
+
+
+def gen_mask(rng, nT, nx, dtype, style, ends=False, row_kinds=None):
+    """mask values per pixel (row-major).  Zero (and -0.0 in a float mask) marks a good pixel, everything else a bad one."""
+    zero = (lambda: rng.choice([0.0, 0.0, -0.0])) if 'f' in dtype else (lambda: 0)
+    mask, kinds = [], []
+    for t in range(nT):
+        kind = (row_kinds[t] if row_kinds else rng.choice(ROW_KINDS))
+        if ends:
+            kind = 'normal'
+        # a row whose flags are ALL negative (signed types) when the style says so; otherwise per-pixel choice
+        row_style = style
+        row = [bad_value(rng, dtype, row_style) if rng.random() < 0.15 else zero() for _ in range(nx)]
+        s0 = rng.randrange(nx - 6)
+        for k in range(s0, s0 + rng.randint(1, 5)):
+            row[k] = bad_value(rng, dtype, row_style)
+        if rng.random() < 0.5:
+            row[0] = bad_value(rng, dtype, row_style)
+        if rng.random() < 0.5:
+            row[nx - 1] = bad_value(rng, dtype, row_style)
+        if ends:
+            for k in range(rng.randint(1, 3)):
+                row[k] = bad_value(rng, dtype, row_style)
+            for k in range(rng.randint(1, 3)):
+                row[nx - 1 - k] = bad_value(rng, dtype, row_style)
+        if kind == 'all-good':
+            row = [zero() for _ in range(nx)]
+        elif kind == 'all-bad':
+            row = [bad_value(rng, dtype, row_style) for _ in range(nx)]
+        elif kind in ('single-good', 'two-good'):
+            row = [bad_value(rng, dtype, row_style) for _ in range(nx)]
+            for k in rng.sample(range(nx), 1 if kind == 'single-good' else 2):
+                row[k] = zero()
+        elif not any(is_bad(v) for v in row):
+            row[nx // 2] = bad_value(rng, dtype, row_style)
+        if kind == 'normal' and sum(1 for v in row if not is_bad(v)) < 2:
+            row[nx // 3] = zero()
+            row[2 * nx // 3] = zero()
+        mask += row
+        kinds.append(kind)
+    return mask, kinds
+
+
+def is_bad(v):
+    return isinstance(v, str) or v != 0
+
+
+def mask_q(v):
+    """exact rational of a mask value, None for nan / inf"""
+    if isinstance(v, str):
+        return None
+    return C.qlit(v)
+
+
+
+def gen_filter_job(ctx, small, direction=None, wave=None, cover=None, dtype=None, edge=None, ends=False, mask_dtype=None,
+                   mask_style=None, row_kinds=None):
     rng = ctx.rng
-    nT = 3 if ends else rng.randint(1, 3)
+    nT = 3 if ends else (len(row_kinds) if row_kinds else rng.randint(1, 3))
     nx = rng.randint(24, 48) if small else rng.randint(300, 1200)
     kind = cover or rng.choice(['full', 'full', 'blue', 'red', 'outside'])
     lam_lo, lam_hi = {'full': (3000.0, 11000.0), 'blue': (3000.0, 5200.0), 'red': (6500.0, 11500.0), 'outside': (12000.0, 20000.0)}[kind]
@@ -450,32 +574,14 @@ def gen_filter_job(ctx, small, direction=None, wave=None, cover=None, dtype=None
            'op': 'filter', 'nT': nT, 'nx': nx, 'flux': flux, 'flux2': flux2, 'loglam0': loglam0, 'dloglam': dloglam,
            'wave': wave or rng.choice(['waveimg', 'waveimg', 'wset']), 'toair': (rng.random() < 0.3) and edge is None, 'direction': direction,
            'a': C.dyadic(rng, -3, 3, 4), 'b': C.dyadic(rng, -3, 3, 4), 'c': C.dyadic(rng, -5, 50, 4),
-           'mask': None, 'return_weights': small, 'cover': kind,
+           'mask': None, 'return_weights': small, 'cover': kind, 'coq_bands': None if mask_dtype is None else [rng.randrange(5)],
            'levels': [C.dyadic(rng, 1, 40, 3) + 3 * t for t in range(nT)]}
-    if ends or rng.random() < 0.6:
-        mask = [1 if rng.random() < 0.15 else 0 for _ in range(nT * nx)]
-        # runs of masked pixels, masked edges
-        for t in range(nT):
-            s = rng.randrange(nx - 6)
-            for k in range(s, s + rng.randint(1, 5)):
-                mask[t * nx + k] = 1
-            if rng.random() < 0.5:
-                mask[t * nx] = 1
-            if rng.random() < 0.5:
-                mask[t * nx + nx - 1] = 3
-            if ends:
-                # masked pixels at the first / last pixels of the trace (their neighbours in memory belong to another trace)
-                for k in range(rng.randint(1, 3)):
-                    mask[t * nx + k] = 1
-                for k in range(rng.randint(1, 3)):
-                    mask[t * nx + nx - 1 - k] = 1
-            # keep at least two good pixels per trace
-            good = [k for k in range(nx) if mask[t * nx + k] == 0]
-            if len(good) < 2:
-                mask[t * nx + nx // 3] = 0
-                mask[t * nx + 2 * nx // 3] = 0
-        job['mask'] = mask
-        job['junk'] = [rng.choice([1e6, -1e6, C.dyadic(rng, -1000, 1000, 4)]) for _ in range(sum(1 for m in mask if m))]
+    if ends or mask_dtype is not None or rng.random() < 0.6:
+        md = mask_dtype or rng.choice(MASK_DTYPES)
+        ms = mask_style or rng.choice(mask_styles(md))
+        mask, kinds = gen_mask(rng, nT, nx, md, ms, ends, row_kinds)
+        job['mask'], job['mask_dtype'], job['mask_style'], job['row_kinds'] = mask, md, ms, kinds
+        job['junk'] = [rng.choice([1e6, -1e6, C.dyadic(rng, -1000, 1000, 4)]) for _ in range(sum(1 for m in mask if is_bad(m)))]
     return job
 
 
@@ -494,6 +600,19 @@ def check_filter(ctx, viol):
         band, side = ctx.rng.choice('ugriz'), ctx.rng.choice(['blue', 'red'])
         jobs.append(gen_filter_job(ctx, False, ctx.rng.choice(['blue-to-red', 'red-to-blue']), ctx.rng.choice(['waveimg', 'wset']),
                                    None, 'f4' if k % 4 != 3 else 'd', (band, side)))
+    # masks of every storage type and flag convention (negative flags, sign bits, top bits of unsigned types, float masks),
+    # with rows that are all good / all bad / have one or two good pixels: every run
+    rk = ctx.rng.choice
+    for md in MASK_DTYPES:
+        jobs.append(gen_filter_job(ctx, True, None, None, 'full', mask_dtype=md))
+    for md, ms, kinds in (('i4', 'neg1', ['normal', 'normal']), ('i4', 'signbit', ['normal', 'all-good', 'normal']),
+                          ('i8', 'signbit', ['normal', 'single-good']), ('i2', 'negative', ['normal', 'all-bad', 'two-good']),
+                          ('i1', 'negative', ['normal']), ('u8', 'topbit', ['normal', 'normal']), ('f8', 'float-special', ['normal', 'single-good']),
+                          ('f4', 'float', ['normal', 'all-bad']), ('>i4', 'neg1', ['normal', 'two-good']), ('i8', 'mixed', ['all-bad', 'normal'])):
+        jobs.append(gen_filter_job(ctx, True, rk(['blue-to-red', 'red-to-blue']), rk(['waveimg', 'wset']), 'full',
+                                   mask_dtype=md, mask_style=ms, row_kinds=kinds))
+    for md, ms in (('i4', 'negative'), ('i8', 'signbit'), ('i2', 'neg1'), ('f8', 'float')) + ((('u4', 'topbit'), ('i4', 'mixed')) if ctx.thorough else ()):
+        jobs.append(gen_filter_job(ctx, False, None, None, 'full', mask_dtype=md, mask_style=ms, row_kinds=['normal', 'normal']))
     nb = min(C.NPROC, len(jobs))
     outs = C.run_impl_parallel('c19_impl.py', [jobs[k::nb] for k in range(nb)])
     results = [None] * len(jobs)
@@ -503,10 +622,13 @@ def check_filter(ctx, viol):
     terms, meta = [], []
     nband = 0
     cover = {}
+    mask_cover = {'dtype': {}, 'style': {}, 'row': {}, 'branch': {}, 'indep_checked_bands': 0, 'all_bad_rows_excluded': 0}
+    tie_terms, tie_meta = [], []
     for ji, (job, r) in enumerate(zip(jobs, results)):
         small_in = {k: job[k] for k in ('nT', 'nx', 'loglam0', 'dloglam', 'wave', 'toair', 'a', 'b', 'c', 'cover', 'direction', 'dtype', 'predicted_edge_sum')}
         ej = 1e-9 if job['dtype'] == 'd' else 5e-6      # comparison tolerance: float64 / float32 flux
         small_in['masked'] = job['mask'] is not None
+        small_in.update({k: job.get(k) for k in ('mask_dtype', 'mask_style', 'row_kinds')})
         rep0 = {'kind': 'failing-input', 'input': small_in, 'job': job if job['nx'] <= 60 else None, 'seed_note': 'regenerate with the same VERIF_SEED'}
         if 'err' in r:
             viol('C19:filter_thru:%s' % r['err'], 'filter_thru raised %s: %s' % (r['err'], r.get('msg')), rep0, True)
@@ -517,6 +639,48 @@ def check_filter(ctx, viol):
             continue
         if not r['input_unchanged']:
             viol('C19:filter_thru:input-modified', 'filter_thru modified its flux argument', rep0, True)
+        if job['mask'] is not None and r.get('mask_unchanged') is False:
+            viol('C19:filter_thru:input-modified', 'filter_thru modified its mask argument (%s)' % job.get('mask_dtype'), rep0, True)
+        if job['mask'] is not None:
+            mask_cover['dtype'][job['mask_dtype']] = mask_cover['dtype'].get(job['mask_dtype'], 0) + 1
+            mask_cover['style'][job['mask_style']] = mask_cover['style'].get(job['mask_style'], 0) + 1
+            for kd in job['row_kinds']:
+                mask_cover['row'][kd] = mask_cover['row'].get(kd, 0) + 1
+        # black-box checks of the mask (no hooks needed): any non-zero mask value marks a bad pixel, and the values stored in bad
+        # pixels must not reach the band fluxes -- BIT-IDENTICAL results after overwriting them -- whenever the trace has a good pixel
+        if job['mask'] is not None and 'res_junk' in r:
+            for t in range(job['nT']):
+                row = job['mask'][t * job['nx']:(t + 1) * job['nx']]
+                ngood_h = sum(1 for v in row if not is_bad(v))
+                if r['good_per_trace'][t] != ngood_h:
+                    viol('C19:filter_thru:mask-values', 'harness and numpy disagree on the number of zero mask values (%d vs %d, %s)'
+                         % (ngood_h, r['good_per_trace'][t], job['mask_dtype']),
+                         {'kind': 'broken-correspondence', 'item': 'mask encoding in the harness', 'input': small_in}, False)
+                    continue
+                if ngood_h == 0:
+                    mask_cover['all_bad_rows_excluded'] += 1
+                    continue
+                for i in range(5):
+                    v1, vj = r['res'][t][i], r['res_junk'][t][i]
+                    mask_cover['indep_checked_bands'] += 1
+                    if not isnum(vj) or not isnum(v1) or vj != v1:
+                        negs = sorted(set(v for v in row if not isinstance(v, str) and v < 0))[:3]
+                        viol('C19:filter_thru:mask', 'changing the values of masked pixels changes band %s of trace %d: %r -> %r (mask %s, style %s, '
+                             'row %s with %d good pixels%s)' % ('ugriz'[i], t, v1, vj, job['mask_dtype'], job['mask_style'], job['row_kinds'][t], ngood_h,
+                                                                 ', negative flags %s' % negs if negs else ''),
+                             dict(rep0, trace=t, band='ugriz'[i], values={'f': v1, 'junk in masked pixels': vj}), True)
+        # the same pixels stored in the opposite order give the same band values (C19_filter_band_reversal)
+        if 'res_rev' in r:
+            for t in range(job['nT']):
+                for i in range(5):
+                    v1, vr = r['res'][t][i], r['res_rev'][t][i]
+                    # (toair: the pixel widths vary along the trace and the fit attributes each difference to its LEFT pixel, which is the
+                    # other neighbour after the reversal: agreement to 1e-5 only)
+                    if not isnum(vr) or not isnum(v1) or abs(vr - v1) > (1e-5 if job['toair'] else 100 * ej) * (1 + abs(v1)):
+                        viol('C19:filter_thru:pixel-order', 'storing the pixels in the opposite order changes band %s of trace %d: %r -> %r (%s, %s)'
+                             % ('ugriz'[i], t, v1, vr, job.get('direction'), job['wave']), dict(rep0, trace=t, band='ugriz'[i], values={'f': v1, 'reversed': vr}), True)
+        elif 'res_rev_err' in r:
+            viol('C19:filter_thru:pixel-order:%s' % r['res_rev_err'].get('err'), 'filter_thru raised on the reversed pixel order: %s' % r['res_rev_err'], rep0, True)
         # checks that need no recorded weights: a band either does not overlap (constant spectrum -> exactly 0) or returns the
         # constant, lies within the unmasked flux range, is linear and ignores masked values
         for t in range(nT):
@@ -574,18 +738,69 @@ def check_filter(ctx, viol):
                 else:
                     if v1 != 0.0 or vc != 0.0:
                         viol('C19:filter_thru:no-overlap', 'band %s does not overlap the wavelengths but the result is %r (constant: %r)' % ('ugriz'[i], v1, vc), rep, True)
-                if 'res_junk' in r and r['good_per_trace'][t] >= 2:
-                    vj = r['res_junk'][t][i]
-                    if not isnum(vj) or abs(vj - v1) > ej * (1 + abs(v1)):
-                        viol('C19:filter_thru:mask', 'changing the values of masked pixels changes band %s: %r -> %r' % ('ugriz'[i], v1, vj), rep, True)
-                if 'fitted' in r and 'resp' in r and (job['mask'] is None or r.get('maskinterp_called', True)):
+                if 'fitted' in r and 'resp' in r and (job['mask'] is None or r.get('maskinterp_called', True)) \
+                        and (job.get('coq_bands') is None or i in job['coq_bands']):
                     # raw ingredients per pixel: fitted d(log lambda) (either sign), interpolated response, (interpolated) flux
                     ft, rs, fi = r['fitted'][t], r['resp'][t][i], r['fi'][t]
+                    lam = r['lam'][t] if 'lam' in r else None
                     if all(isnum(x) for x in ft) and all(isnum(x) for x in rs) and all(isnum(x) for x in fi):
                         tol = F(1, 10 ** 9) * max(1, int(max(abs(x) for x in fi)) + 1)
-                        trip = C.coq_list(['(%s, %s, %s)' % (C.qlit(a_), C.qlit(b_), C.qlit(c_)) for a_, b_, c_ in zip(ft, rs, fi)])
-                        terms.append('(CFilter %s %s %s)' % (trip, C.qlit(v1), C.qlit(tol)))
+                        if lam is not None and all(isnum(x) for x in lam):
+                            # the response is computed by the model (generated curve, np.interp model) from the wavelength
+                            quad = C.coq_list(['(%s, %s, %s, %s)' % (C.qlit(a_), C.qlit(l_), C.qlit(b_), C.qlit(c_))
+                                               for a_, l_, b_, c_ in zip(ft, lam, rs, fi)])
+                            terms.append('(CFilterLam %d%%nat %s %s %s)' % (i, quad, C.qlit(v1), C.qlit(tol)))
+                            cover['response-from-model'] = cover.get('response-from-model', 0) + 1
+                        else:
+                            trip = C.coq_list(['(%s, %s, %s)' % (C.qlit(a_), C.qlit(b_), C.qlit(c_)) for a_, b_, c_ in zip(ft, rs, fi)])
+                            terms.append('(CFilter %s %s %s)' % (trip, C.qlit(v1), C.qlit(tol)))
+                            cover['response-recorded'] = cover.get('response-recorded', 0) + 1
                         meta.append((ji, t, i, v1, sw))
+        # ---- per trace: the interpolated row vs the model of djs_maskinterp1 (M) and the row checker (S); the pixel widths; toair
+        if 'fi' in r and job['mask'] is not None and r.get('maskinterp_called', True):
+            for which, src, dst in (('flux', None, 'fi'), ('junk', 'junk_flux', 'fi_junk')):
+                if dst not in r or (src and src not in r):
+                    continue
+                for t in range(nT):
+                    row = job['mask'][t * nx:(t + 1) * nx]
+                    mq = [mask_q(v) for v in row]
+                    if any(m is None for m in mq):
+                        # nan / inf mask values have no rational: such rows get the black-box checks only
+                        cover['mask-row-nonfinite-skipped'] = cover.get('mask-row-nonfinite-skipped', 0) + 1
+                        continue
+                    vals = (r[src][t] if src else [float(x) for x in job['flux'][t * nx:(t + 1) * nx]])
+                    out_row = r[dst][t]
+                    if not all(isnum(x) for x in out_row):
+                        viol('C19:filter_thru:mask:nonfinite', 'the interpolated flux row has a non-finite value', rep0, True)
+                        continue
+                    goodv = [abs(v) for v, m in zip(vals, row) if not is_bad(m)]
+                    tolm = F(1, 10 ** 11) * max(1, int(max(goodv)) + 1) if goodv else F(0)
+                    ng = len(goodv)
+                    br = 'all-good' if ng == nx else 'none-good' if ng == 0 else 'one-good' if ng == 1 else 'interpolate'
+                    mask_cover['branch'][br] = mask_cover['branch'].get(br, 0) + 1
+                    pairs = C.coq_list(['(%s, %s)' % (C.qlit(v), m) for v, m in zip(vals, mq)])
+                    tie_terms.append('(CMask %s %s %s)' % (pairs, C.coq_list([C.qlit(x) for x in out_row]), C.qlit(tolm)))
+                    tie_meta.append(('mask', ji, t, which, br))
+        if 'fitted' in r and not job['toair'] and job.get('predicted_edge_sum') is None:
+            for t in range(nT):
+                dl = abs(job['dloglam'][t])
+                worst = max(abs(abs(x) - dl) for x in r['fitted'][t]) if all(isnum(x) for x in r['fitted'][t]) else math.inf
+                if worst > 1e-6 * dl:
+                    viol('C19:filter_thru:pixel-width', 'the fitted pixel width differs from |d(log10 lambda)| = %r of the wavelength solution by %r (trace %d, %s)'
+                         % (dl, worst, t, job['wave']), {'kind': 'broken-correspondence', 'item': 'd(log lambda) fit (xy2traceset / traceset2xy of diffy)',
+                                                        'input': small_in, 'trace': t, 'worst': worst}, False)
+        if 'lam' in r and 'waveimg_in' in r:
+            # the wavelengths at which the response is taken: the caller's (toair=False) or vactoair of them (toair=True), in Coq
+            for t in range(nT):
+                for k in range(0, nx, 5):
+                    w_in, w_used = r['waveimg_in'][t][k], r['lam'][t][k]
+                    if not job['toair']:
+                        if w_in != w_used:
+                            viol('C19:filter_thru:wavelengths', 'toair=False but the response is taken at %r for the wavelength %r' % (w_used, w_in),
+                                 dict(rep0, trace=t, pixel=k), True)
+                    elif isnum(w_in) and isnum(w_used):
+                        tie_terms.append('(CVac (1 # 1) %s %s)' % (C.qlit(w_in), C.qlit(w_used)))
+                        tie_meta.append(('toair', ji, t, k, None))
     cc = C.CoqCases(ctx.work, HEADER, 'run_cases', shard=max(4, len(terms) // C.NPROC + 1))
     verdicts = cc.run(terms, tag='filter') if terms else []
     for (ji, t, i, v1, sw), term, v in zip(meta, terms, verdicts):
@@ -604,7 +819,34 @@ def check_filter(ctx, viol):
             rep['kind'] = 'broken-correspondence'
             rep['item'] = 'C19.Model.run_case (CFilter)'
             viol('C19:filter_thru:wmean:model', 'filter_thru band %s = %r differs from the generated band-sum model' % ('ugriz'[i], v1), rep, False)
-    return {'bands': nband, 'coq_cases': len(terms), 'coq_s': cc.coq_seconds, 'cover': cover,
+    cc2 = C.CoqCases(ctx.work, HEADER, 'run_cases', shard=max(4, len(tie_terms) // C.NPROC + 1))
+    verdicts2 = cc2.run(tie_terms, tag='masktie') if tie_terms else []
+    for (what, ji, t, a_, b_), term, v in zip(tie_meta, tie_terms, verdicts2):
+        if v == 0:
+            continue
+        job = jobs[ji]
+        base = {'input': {k: job.get(k) for k in ('nT', 'nx', 'loglam0', 'dloglam', 'wave', 'toair', 'cover', 'mask_dtype', 'mask_style', 'row_kinds')},
+                'job': job, 'trace': t, 'coq_case': term[:3000], 'verdict': v}
+        if what == 'mask':
+            base['meaning'] = ('bit 2: the row that enters the band sums (%s run) keeps a good pixel changed or holds, at a bad pixel, a value outside the '
+                               'range of the good pixels (Spec.fill_ok, C19_fill_ok_sound): bad pixels were not interpolated; bit 1: differs from the '
+                               'model of djs_maskinterp1 (generated tests and dispatch, np.interp model)' % a_)
+            if v & 2:
+                viol('C19:filter_thru:mask:row:property', 'trace %d (%s, mask %s / %s, row %s): bad pixels are not replaced by values interpolated from the good ones'
+                     % (t, b_, job.get('mask_dtype'), job.get('mask_style'), job['row_kinds'][t]), dict(base, kind='failing-input'), True)
+            else:
+                viol('C19:filter_thru:mask:row:model', 'trace %d (%s, mask %s): the interpolated row differs from the djs_maskinterp1 model'
+                     % (t, b_, job.get('mask_dtype')), dict(base, kind='broken-correspondence', item='C19.Model.mi_row (CMask)'), False)
+        else:
+            base['meaning'] = 'toair=True: the wavelength at which the response is taken must be vactoair of the caller\'s wavelength (CVac case)'
+            if v & 2:
+                viol('C19:filter_thru:toair:property', 'toair=True: pixel %d of trace %d uses a wavelength that is not below the vacuum wavelength' % (a_, t),
+                     dict(base, kind='failing-input'), True)
+            else:
+                viol('C19:filter_thru:toair:model', 'toair=True: pixel %d of trace %d: the wavelength used differs from vactoair_Q of the input' % (a_, t),
+                     dict(base, kind='broken-correspondence', item='filter_thru toair route vs vactoair_Q'), False)
+    return {'bands': nband, 'coq_cases': len(terms) + len(tie_terms), 'coq_s': cc.coq_seconds + cc2.coq_seconds, 'cover': cover,
+            'mask_cover': mask_cover, 'mask_row_cases': sum(1 for m in tie_meta if m[0] == 'mask'), 'toair_tie_cases': sum(1 for m in tie_meta if m[0] == 'toair'),
             'jobs': len(jobs), 'masked_jobs': sum(1 for j in jobs if j['mask'] is not None),
             'wset_jobs': sum(1 for j in jobs if j['wave'] == 'wset'), 'toair_jobs': sum(1 for j in jobs if j['toair']),
             'red_to_blue_jobs': sum(1 for j in jobs if j.get('direction') == 'red-to-blue'),
@@ -720,10 +962,17 @@ def correspond(ctx, proof_ok=True):
     if not ok:
         raise RuntimeError('C19/Model.v does not build:\n' + log[-2000:])
     viol = Viol(ctx)
+    t0 = time.time()
     w = check_wave(ctx, viol)
+    t1 = time.time()
     f = check_flux(ctx, viol)
+    t2 = time.time()
     t = check_filter(ctx, viol)
+    t3 = time.time()
     sh = check_storage_history(ctx, viol)
+    t4 = time.time()
+    ctx.coverage['phase_seconds'] = {'wave': round(t1 - t0, 1), 'flux2ab': round(t2 - t1, 1), 'filter_thru': round(t3 - t2, 1),
+                                     'filter_thru_coq': round(t['coq_s'], 1), 'storage_history': round(t4 - t3, 1)}
     ctx.coverage.update({
         'storage_type_values': sh['values'], 'storage_type_jobs': sh['storage_jobs'], 'history_calls': sh['history_calls'],
         'evaluations': w['cases'] + 3 * w['grid'] + f['values'] + 4 * t['bands'],
@@ -735,7 +984,8 @@ def correspond(ctx, proof_ok=True):
                 % (w['cases'], f['n_lemmas'], t['coq_cases']),
         'wave_cases_by_kind': w['kinds'], 'roundtrip_grid_points': w['grid'],
         'flux2ab_values': f['values'], 'flux2ab_enclosure_failures': f['failures'], 'flux2ab_observed_factors': f['factors'],
-        'filter_bands': t['bands'], 'filter_cover': t['cover'], 'filter_jobs': t['jobs'], 'filter_masked_jobs': t['masked_jobs'],
+        'filter_bands': t['bands'], 'filter_cover': t['cover'], 'filter_mask_cover': t['mask_cover'],
+        'filter_mask_row_cases': t['mask_row_cases'], 'filter_toair_tie_cases': t['toair_tie_cases'], 'filter_jobs': t['jobs'], 'filter_masked_jobs': t['masked_jobs'],
         'filter_wset_jobs': t['wset_jobs'], 'filter_toair_jobs': t['toair_jobs'], 'filter_red_to_blue_jobs': t['red_to_blue_jobs'], 'filter_float32_jobs': t['float32_jobs'], 'filter_edge_jobs': t['edge_jobs'],
         'coq_eval_s': round(w['coq_s'] + f['coq_s'] + t['coq_s'], 1),
         'samples': [w['sample'], {'flux2ab_lemma': f['sample_lemma']}, t['sample']],
